@@ -1,6 +1,7 @@
 """Worker for C10: renders decision-table rows into modules, lints them with the real supp; also scans real files for
 never-read bindings.  stdin: {"rows": [[id, row, expected]], "files": [[id, path]]}; stdout: list of cases for LintCheck.tla"""
 import ast
+from vlib import astpos  # noqa
 import io
 import json
 import sys
@@ -317,7 +318,7 @@ def expected_for(name, kind, scope, declared):
 
 def scan_file(path):
     src = open(path, encoding='utf-8').read()
-    tree = ast.parse(src)
+    tree = astpos.parse(src)
     for n in ast.walk(tree):
         if type(n).__name__ in ('TryStar', 'Match', 'TypeAlias') or getattr(n, 'type_params', None):
             raise ValueError('syntax outside the modelled domain (%s)' % type(n).__name__)
